@@ -22,24 +22,52 @@ def _solver(timeout_ms):
     return s
 
 
-def _cvc5_smt(smt, timeout_s):
-    with tempfile.NamedTemporaryFile("w", suffix=".smt2", delete=False, dir=os.environ.get("PYVC_TMP")) as f:
+class _Cvc5Job:
+    """cvc5 on an SMT-LIB2 text in a subprocess; can be abandoned"""
+
+    def __init__(self, smt, timeout_s):
+        f = tempfile.NamedTemporaryFile("w", suffix=".smt2", delete=False, dir=os.environ.get("PYVC_TMP"))
         f.write(smt)
-        path = f.name
-    try:
-        p = subprocess.run(["/usr/bin/cvc5", "--strings-exp", "--tlimit=%d" % int(timeout_s * 1000), path],
-                           capture_output=True, text=True, timeout=timeout_s + 10)
-        out = p.stdout.strip().splitlines()
-        ans = out[0].strip() if out else ""
+        f.close()
+        self.path = f.name
+        self.timeout_s = timeout_s
+        self.p = subprocess.Popen(["/usr/bin/cvc5", "--strings-exp", "--tlimit=%d" % int(timeout_s * 1000), self.path],
+                                  stdout=subprocess.PIPE, stderr=subprocess.PIPE, text=True)
+
+    def result(self):
+        try:
+            out, err = self.p.communicate(timeout=self.timeout_s + 10)
+        except subprocess.TimeoutExpired:
+            self.p.kill()
+            self.p.communicate()
+            self._rm()
+            return "unknown"
+        self._rm()
+        lines = out.strip().splitlines()
+        ans = lines[0].strip() if lines else ""
         if ans in ("unsat", "sat"):
             return ans
-        if "error" in (p.stdout + p.stderr).lower():
+        if "error" in (out + err).lower():
             return "error"
         return "unknown"
-    except subprocess.TimeoutExpired:
-        return "unknown"
-    finally:
-        os.unlink(path)
+
+    def abandon(self):
+        try:
+            self.p.kill()
+            self.p.communicate()
+        except Exception:
+            pass
+        self._rm()
+
+    def _rm(self):
+        try:
+            os.unlink(self.path)
+        except OSError:
+            pass
+
+
+def _cvc5_smt(smt, timeout_s):
+    return _Cvc5Job(smt, timeout_s).result()
 
 
 def _dump(solver):
@@ -65,17 +93,47 @@ def check_valid(assumptions, goal, lemmas=(), timeout_ms=None, want_model=True, 
     disagreement = False
     for fuel in range(1, max_fuel + 1):
         insts = defs.instances(base, fuel)
-        s = _solver(6000)
+        s = _solver(20000)
         for f in base + lem + insts:
             s.add(defs.to_uf(f))
         smt = _dump(s)
         has_seq = ("(Seq " in smt) or ("String" in smt) or ("seq." in smt) or ("str." in smt)
-        if not has_seq:
-            s.set("timeout", min(timeout_ms, 10000))
-        rz = s.check()
-        if rz == z3.unsat and not (has_seq or thorough):
+        need_cvc5 = has_seq or thorough
+        s.set("timeout", min(timeout_ms, 20000))
+        job = _Cvc5Job(smt, 40 if thorough else 12) if need_cvc5 else None
+        import threading
+        zbox = {}
+        zt = threading.Thread(target=lambda: zbox.update(r=s.check()))
+        zt.start()
+        rc = None
+        if job is not None:
+            # poll: whichever finishes first may settle the query
+            while zt.is_alive() and job.p.poll() is None:
+                zt.join(0.02)
+            if job.p.poll() is not None:
+                rc = job.result()
+                if rc == "unsat":
+                    try:
+                        s.ctx.interrupt()
+                    except Exception:
+                        pass
+                    zt.join()
+                    rz = zbox.get("r", z3.unknown)
+                    return dict(status="proved", time_s=time.time() - t0, model=None,
+                                backend="z3+cvc5" if rz == z3.unsat else "cvc5", fuel=fuel)
+        zt.join()
+        rz = zbox.get("r", z3.unknown)
+        if rz == z3.unsat and not need_cvc5:
             return dict(status="proved", time_s=time.time() - t0, model=None, backend="z3", fuel=fuel)
-        rc = _cvc5_smt(smt, 30 if thorough else 8)
+        if rz == z3.sat and job is not None and rc is None:
+            # z3 has a model of the fuel-limited query: cvc5 cannot prove it at this depth either; deepen
+            job.abandon()
+            last = "z3:sat (fuel %d)" % fuel
+            continue
+        if job is not None and rc is None:
+            rc = job.result()
+        if rc is None:
+            rc = _cvc5_smt(smt, 12) if rz != z3.sat else "skipped"
         if rc == "unsat":
             return dict(status="proved", time_s=time.time() - t0, model=None,
                         backend="z3+cvc5" if rz == z3.unsat else "cvc5", fuel=fuel)
@@ -167,7 +225,7 @@ def all_registry(sm):
     return reg
 
 
-def verify_contract(modname, key, tier="quick"):
+def verify_contract(modname, key, tier="quick", shard=0, nshards=1):
     """generate and discharge the obligations of one real function; returns a JSON-able dict"""
     t0 = time.time()
     sm = load(modname)
@@ -203,7 +261,10 @@ def verify_contract(modname, key, tier="quick"):
     if not ctx.obligs:
         out["status"] = "vacuous"
         out["reason"] = "no obligations generated"
-    for o in ctx.obligs:
+    out["n_generated"] = len(ctx.obligs)
+    for oi, o in enumerate(ctx.obligs):
+        if oi % nshards != shard:
+            continue
         r = check_valid(o.assumptions, o.goal, lemmas, thorough=(tier == "thorough"))
         rec = dict(fuel=r.get("fuel"), name=o.name, kind=o.kind, line=o.line, note=o.note, status=r["status"], time_s=round(r["time_s"], 4),
                    backend=r["backend"], contract=o.is_contract)
@@ -212,7 +273,7 @@ def verify_contract(modname, key, tier="quick"):
         out["obligations"].append(rec)
     # canaries: deliberately wrong postconditions must be refuted
     out["canaries"] = []
-    for can in c.canaries:
+    for can in (c.canaries if shard == 0 else []):
         try:
             cctx, _ = gen_function_vcs(c, reg, make_feasible(), extra_post=[can])
             posts = [o for o in cctx.obligs if o.kind == "post"]
@@ -352,13 +413,14 @@ def prove_lemmas(modname):
 
 
 def _task(args):
-    kind, modname, key, tier = args
+    kind, modname, key, tier = args[:4]
+    shard, nshards = (args[4], args[5]) if len(args) > 4 else (0, 1)
     try:
         if kind == "universe":
             return dict(kind=kind, module=modname, results=prove_universe(modname))
         if kind == "lemmas":
             return dict(kind=kind, module=modname, results=prove_lemmas(modname))
-        return dict(kind=kind, module=modname, result=verify_contract(modname, key, tier))
+        return dict(kind=kind, module=modname, result=verify_contract(modname, key, tier, shard, nshards))
     except Exception:
         return dict(kind=kind, module=modname, key=key, crash=traceback.format_exc()[-3000:])
 
@@ -374,7 +436,30 @@ def run_modules(modnames, tier="quick", jobs=None, only_keys=None):
             tasks.append(("lemmas", mn, None, tier))
         for c in sm.contracts:
             if only_keys is None or c.key in only_keys:
-                tasks.append(("contract", mn, c.key, tier))
+                ns = max(1, int(getattr(c, "shards", 1)))
+                for sh in range(ns):
+                    tasks.append(("contract", mn, c.key, tier, sh, ns))
     ctxm = mp.get_context("fork")
     with ctxm.Pool(jobs or min(16, os.cpu_count() or 4), maxtasksperchild=1) as pool:
-        return pool.map(_task, tasks, chunksize=1)
+        raw = pool.map(_task, tasks, chunksize=1)
+    # merge the shards of one function
+    merged, by_key = [], {}
+    for r in raw:
+        if r.get("kind") != "contract" or "result" not in r:
+            merged.append(r)
+            continue
+        k = r["result"]["key"]
+        if k not in by_key:
+            by_key[k] = r
+            merged.append(r)
+        else:
+            a, b = by_key[k]["result"], r["result"]
+            a["obligations"].extend(b.get("obligations", []))
+            a["canaries"] = a.get("canaries", []) + b.get("canaries", [])
+            a["wall_s"] = max(a.get("wall_s", 0), b.get("wall_s", 0))
+            if b["status"] != "ok" and a["status"] == "ok":
+                a["status"], a["reason"] = b["status"], b.get("reason")
+    for r in merged:
+        if r.get("kind") == "contract" and "result" in r:
+            r["result"]["obligations"].sort(key=lambda o: o["name"])
+    return merged
